@@ -64,6 +64,7 @@ func pairSpace(tier, opt string) []pairLeg {
 	add("deep", Deep(thorough || o == "none" || o == "MERGE"))
 	add("mixed", Mixed())
 	add("large", Large())
+	add("huge", Huge())
 	add("numbers", NumDocs())
 	add("strings", StrDocs())
 	add("hostile", thin(HostileDocs(), 110))
